@@ -326,6 +326,54 @@ theorem C15_id_interceptor_any_token (f : String → String) (hf : GoodIcpt f) (
     rw [h2, haf, List.mem_filter, hmem x]
     simp
 
+/-- **C15_any_stored_contents.** Since 0a40c2f all six listers sort by the key field they search, so paging does not
+depend on HOW the items came to be stored: for ANY stored contents — whatever ids the items are stored under, e.g.
+records configured through the raw option `resource.WithInitialRecord(id, msg)` with an id unrelated to the message's
+key field, or rewritten by a caller's write interceptor — whose key fields are pairwise different and not empty, the
+chain from the empty token enumerates exactly the stored key fields once each in ascending order within
+`|items|+1` pages, with the size bound and `total_size = |items|` on every page, and a token decoding to ANY key
+returns exactly the stored key fields greater than it.  (`C15_id_interceptor` proves the two hypotheses for
+everything the models' own APIs can build; both are needed: examples below.) -/
+theorem C15_any_stored_contents (s : RStore) (hnd : (s.map (·.key)).Nodup) (hne : ∀ r ∈ s, r.key ≠ "")
+    (v : Variant) (size : Nat → Int) (hsz : ∀ i, 0 ≤ size i) :
+    (∃ pages, chain v (flisting s) size ((flisting s).length + 1) 0 .empty = some pages ∧
+      (pages.map (·.items)).flatten = flisting s ∧
+      ((pages.map (·.items)).flatten).Nodup ∧
+      (∀ x, x ∈ (pages.map (·.items)).flatten ↔ ∃ r ∈ s, r.key = x) ∧
+      pages.length ≤ s.length + 1 ∧
+      ∀ j p, pages[j]? = some p → (p.items.length : Int) ≤ allowed (size j) ∧ p.total = s.length) ∧
+    ∀ k, k ≠ "" → ∃ pages, chain v (flisting s) size ((flisting s).length + 1) 0 (.key k) = some pages ∧
+      pages.length ≤ s.length + 1 ∧
+      Sorted ((pages.map (·.items)).flatten) ∧
+      ∀ x, x ∈ (pages.map (·.items)).flatten ↔ ((∃ r ∈ s, r.key = x) ∧ k < x) := by
+  have hs : Sorted (flisting s) := sorted_sortKeys hnd
+  have hlen : (flisting s).length = s.length := by simp [flisting, length_sortKeys]
+  have hmem : ∀ x, x ∈ flisting s ↔ ∃ r ∈ s, r.key = x := by
+    intro x; unfold flisting; rw [mem_sortKeys, List.mem_map]
+  have hne' : "" ∉ flisting s := by
+    intro hm
+    obtain ⟨r, hr, hk⟩ := (hmem "").mp hm
+    exact hne r hr hk
+  refine ⟨?_, ?_⟩
+  · obtain ⟨pages, h1, h2, h3, h4⟩ := C15_enumerates v _ hs hne' size hsz
+    refine ⟨pages, h1, h2, by rw [h2]; exact sorted_nodup hs, by rw [h2]; exact hmem, by omega, ?_⟩
+    intro j p hp
+    rw [← hlen]
+    exact h4 j p hp
+  · intro k hk
+    obtain ⟨pages, h1, h2, -, h3, -⟩ := C15_any_token v _ hs hne' size hsz k
+    have haf : after (flisting s) k = (flisting s).filter (fun x => decide (k < x)) := by
+      simp [after, hk]
+    refine ⟨pages, h1, by omega, ?_, ?_⟩
+    · rw [h2, haf]; exact List.Pairwise.sublist List.filter_sublist hs
+    · intro x
+      rw [h2, haf, List.mem_filter, hmem x]
+      simp
+
+/-- not reachable through the models' APIs, reachable through raw resource options: a hail configured with
+`resource.WithInitialRecord("zz", {Id: "b"})` next to `{Id: "c"}` stored under "a" -/
+example : rlisting [⟨"zz", "b"⟩, ⟨"a", "c"⟩] = ["c", "b"] ∧ flisting [⟨"zz", "b"⟩, ⟨"a", "c"⟩] = ["b", "c"] := by decide
+
 /-- **C15_interceptor_family.** The hypotheses of `C15_id_interceptor` hold for EVERY per-character normalisation
 `String.map g` with `g` idempotent — in particular for the two interceptors the harness configures on the real
 collections, ASCII lower- and upper-casing (the documented use: "a case-insensitive collection by mapping all IDs to
